@@ -2,6 +2,7 @@ package main
 
 import (
 	"strings"
+	"sync"
 )
 
 // Shrinking a failing (type, document) pair to the smallest shape that still fails the same
@@ -107,8 +108,9 @@ func deletions(n *Node) []*Node {
 
 func candidates(c *Case) []*Case {
 	var out []*Case
+	strict := false // simplifying (not removing) steps must keep the signature
 	mk := func(spec *StructSpec, doc *Node, variant int) {
-		out = append(out, &Case{Check: c.Check, Spec: spec, Doc: doc, Variant: variant, Sig: c.Sig})
+		out = append(out, &Case{Check: c.Check, Spec: spec, Doc: doc, Variant: variant, Sig: c.Sig, strict: strict})
 	}
 	// 1. declared key spelling
 	if c.Check != "case" && c.Variant != 0 {
@@ -166,12 +168,65 @@ func candidates(c *Case) []*Case {
 	for _, d := range deletions(c.Doc) {
 		mk(c.Spec, d, c.Variant)
 	}
-	// 6-8. simplify kinds, options and name spellings (top level and one level down)
-	eachField := func(fn func(f *FieldSpec) bool, fix func(d *Node, before, after FieldSpec)) {
+	// 5b. replace the value of scalar-kind fields by the plain valid value, composite kinds by
+	// map[string]int, indirect scalars (array elements, map values, extras) by 7
+	strict = true
+	scalarKind := func(k string) bool { return !isComposite(k) && k != kStrSlice && k != kIntMap }
+	for i, f := range c.Spec.Fields {
+		if f.Kind != kEmbed {
+			v, ok := c.Doc.get(f.Key())
+			if ok && scalarKind(f.Kind) {
+				if want := validValue(f.Kind); renderJSON(v) != renderJSON(want) {
+					d := c.Doc.clone()
+					setMember(d, f.Key(), want)
+					mk(c.Spec, d, c.Variant)
+				}
+			}
+			if isComposite(f.Kind) {
+				s := c.Spec.clone()
+				s.Fields[i].Kind, s.Fields[i].Inner = kIntMap, nil
+				if ok {
+					d := c.Doc.clone()
+					setMember(d, f.Key(), validValue(kIntMap))
+					mk(s, d, c.Variant)
+				}
+				mk(s, c.Doc, c.Variant)
+				if f.Kind == kStructSlice {
+					s := c.Spec.clone()
+					s.Fields[i].Kind, s.Fields[i].Inner = kStrSlice, nil
+					mk(s, c.Doc, c.Variant)
+				}
+			}
+		}
+		if f.Inner == nil {
+			continue
+		}
+		for _, inf := range f.Inner.Fields {
+			if !scalarKind(inf.Kind) {
+				continue
+			}
+			n := len(innerObjects(f.Kind, c.Doc, f.Key()))
+			for oi := 0; oi < n; oi++ {
+				d := c.Doc.clone()
+				o := innerObjects(f.Kind, d, f.Key())[oi]
+				if v, ok := o.get(inf.Key()); ok {
+					if want := validValue(inf.Kind); renderJSON(v) != renderJSON(want) {
+						setMember(o, inf.Key(), want)
+						mk(c.Spec, d, c.Variant)
+					}
+				}
+			}
+		}
+	}
+	for _, d := range leafSimplifications(c.Doc, false) {
+		mk(c.Spec, d, c.Variant)
+	}
+	// 6. simplify kinds, options and name spellings (top level and one level down)
+	eachField := func(fn func(f *FieldSpec, top bool, pos int) bool, fix func(d *Node, before, after FieldSpec)) {
 		for i := range c.Spec.Fields {
 			s := c.Spec.clone()
 			before := s.Fields[i]
-			if fn(&s.Fields[i]) {
+			if fn(&s.Fields[i], true, i) {
 				d := c.Doc
 				if fix != nil {
 					d = c.Doc.clone()
@@ -183,7 +238,7 @@ func candidates(c *Case) []*Case {
 				for j := range c.Spec.Fields[i].Inner.Fields {
 					s := c.Spec.clone()
 					before := s.Fields[i].Inner.Fields[j]
-					if fn(&s.Fields[i].Inner.Fields[j]) {
+					if fn(&s.Fields[i].Inner.Fields[j], false, j) {
 						d := c.Doc
 						if fix != nil {
 							d = c.Doc.clone()
@@ -195,43 +250,159 @@ func candidates(c *Case) []*Case {
 			}
 		}
 	}
-	eachField(func(f *FieldSpec) bool {
-		if f.Kind == kInt64 || f.Kind == kUint8 || f.Kind == kPtrInt {
-			f.Kind = kInt
-			if strings.HasPrefix(f.Opt, "default=") {
-				f.Opt = defaultFor(kInt)
-			}
-			return true
+	// any kind -> int (the simplest kind); keeps the document, so it only survives when the
+	// failure does not depend on the kind
+	eachField(func(f *FieldSpec, top bool, pos int) bool {
+		if f.Kind == kInt {
+			return false
 		}
-		return false
+		f.Kind = kInt
+		f.Inner = nil
+		if strings.HasPrefix(f.Opt, "default=") {
+			f.Opt = defaultFor(kInt)
+		}
+		if f.Tag == "" {
+			f.Tag = f.Go // an embedded field's members are not addressed by this key anyway
+		}
+		return true
 	}, nil)
-	eachField(func(f *FieldSpec) bool {
+	eachField(func(f *FieldSpec, top bool, pos int) bool {
 		if f.Opt != "" {
 			f.Opt = ""
 			return true
 		}
 		return false
 	}, nil)
-	eachField(func(f *FieldSpec) bool {
-		if f.Kind == kEmbed {
+	// canonical names: Alpha/alpha, Beta/beta at the top, Val/val, Aux/aux inside
+	eachField(func(f *FieldSpec, top bool, pos int) bool {
+		if pos > 1 {
 			return false
 		}
-		low := strings.ToLower(f.Key())
-		if f.Tag != low {
-			f.Tag = low
-			return true
+		goName := [2]string{"Val", "Aux"}[pos]
+		if top {
+			goName = [2]string{"Alpha", "Beta"}[pos]
 		}
-		return false
-	}, func(d *Node, before, after FieldSpec) { renameFieldKey(d, before.Key(), after.Key()) })
+		tag := strings.ToLower(goName)
+		if f.Kind == kEmbed {
+			tag = ""
+		}
+		if f.Go == goName && f.Tag == tag {
+			return false
+		}
+		f.Go, f.Tag = goName, tag
+		return true
+	}, func(d *Node, before, after FieldSpec) {
+		if before.Kind != kEmbed {
+			renameFieldKey(d, before.Key(), after.Key())
+		}
+	})
+	// 7. lower-case user keys (map keys, extra keys)
+	for _, d := range lowerings(c.Doc) {
+		mk(c.Spec, d, c.Variant)
+	}
 	return out
 }
 
+func setMember(o *Node, key string, v *Node) {
+	for i := range o.O {
+		if o.O[i].Key == key {
+			o.O[i].V = v
+		}
+	}
+}
+
+// leafSimplifications: all copies of n with exactly one scalar leaf that is not directly the
+// value of a struct-field key replaced by the number 7.
+func leafSimplifications(n *Node, direct bool) []*Node {
+	var out []*Node
+	switch n.K {
+	case "arr":
+		for i := range n.A {
+			for _, sub := range leafSimplifications(n.A[i], false) {
+				c := n.clone()
+				c.A[i] = sub
+				out = append(out, c)
+			}
+		}
+	case "obj":
+		for i := range n.O {
+			for _, sub := range leafSimplifications(n.O[i].V, n.O[i].F) {
+				c := n.clone()
+				c.O[i].V = sub
+				out = append(out, c)
+			}
+		}
+	default:
+		if !direct && !(n.K == "num" && n.Lit == "7") {
+			out = append(out, num("7"))
+		}
+	}
+	return out
+}
+
+// lowerings: all copies of n with exactly one non-field key lower-cased.
+func lowerings(n *Node) []*Node {
+	var out []*Node
+	switch n.K {
+	case "arr":
+		for i := range n.A {
+			for _, sub := range lowerings(n.A[i]) {
+				c := n.clone()
+				c.A[i] = sub
+				out = append(out, c)
+			}
+		}
+	case "obj":
+		for i := range n.O {
+			if !n.O[i].F && n.O[i].Key != strings.ToLower(n.O[i].Key) {
+				low := strings.ToLower(n.O[i].Key)
+				if _, dup := n.get(low); !dup {
+					c := n.clone()
+					c.O[i].Key = low
+					out = append(out, c)
+				}
+			}
+			for _, sub := range lowerings(n.O[i].V) {
+				c := n.clone()
+				c.O[i].V = sub
+				out = append(out, c)
+			}
+		}
+	}
+	return out
+}
+
+func caseKey(c *Case) string {
+	return c.Check + "|" + c.Spec.ID() + "|" + renderJSON(c.Doc) + "|" + variantNames[c.Variant]
+}
+
+var debugShrink bool
+
+var sigMemo sync.Map // caseKey -> signature ("" = holds); results are deterministic, so sharing is safe
+
+func sigOf(c *Case) string {
+	k := caseKey(c)
+	if v, ok := sigMemo.Load(k); ok {
+		return v.(string)
+	}
+	s := runCase(c).Sig
+	sigMemo.Store(k, s)
+	return s
+}
+
+// shrink reduces a failing case greedily: a candidate is accepted when it still fails the same
+// check (with any signature - independent causes in one document are thereby separated, each
+// being reported from the smaller document in which it occurs alone).
 func shrink(c *Case) *Case {
 	cur := c
-	for round := 0; round < 200; round++ {
+	for round := 0; round < 300; round++ {
 		progressed := false
 		for _, cand := range candidates(cur) {
-			if runCase(cand).Sig == cur.Sig {
+			if debugShrink {
+				println("cand", cand.Spec.ID(), renderJSON(cand.Doc), cand.Variant, cand.strict, "->", sigOf(cand), "cur", cur.Sig)
+			}
+			if sig := sigOf(cand); sig != "" && (!cand.strict || sig == cur.Sig) {
+				cand.Sig = sig
 				cur = cand
 				progressed = true
 				break
@@ -242,6 +413,27 @@ func shrink(c *Case) *Case {
 		}
 	}
 	return cur
+}
+
+var classMemo sync.Map // caseKey of an original case -> *classified
+
+type classified struct {
+	class string
+	min   *Case
+	desc  string
+}
+
+// classify shrinks c (once per distinct case) and returns class key, minimal case, description.
+func classify(c *Case) *classified {
+	k := caseKey(c)
+	if v, ok := classMemo.Load(k); ok {
+		return v.(*classified)
+	}
+	m := shrink(c)
+	saved := runCase(m)
+	cl := &classified{class: classOf(m), min: m, desc: describe(m, saved)}
+	classMemo.Store(k, cl)
+	return cl
 }
 
 // ---- shape / class key --------------------------------------------------------------------------
@@ -350,7 +542,24 @@ func restrictTo(parent *Node, inner *StructSpec) *Node {
 func classOf(c *Case) string {
 	cls := c.Check + ":" + c.Sig
 	if c.Check != "case" && c.Variant != 0 {
-		cls += ":keys=" + variantNames[c.Variant]
+		// the failure needs re-spelled keys; which spelling (and the spelling of the tag) is
+		// not part of the cause key
+		return cls + ":keys=recased:" + structShape(plainNames(c.Spec), lowerFieldKeys(c.Doc))
 	}
 	return cls + ":" + structShape(c.Spec, c.Doc)
 }
+
+func plainNames(s *StructSpec) *StructSpec {
+	c := s.clone()
+	for i := range c.Fields {
+		if c.Fields[i].Kind != kEmbed {
+			c.Fields[i].Tag = strings.ToLower(c.Fields[i].Key())
+		}
+		if c.Fields[i].Inner != nil {
+			c.Fields[i].Inner = plainNames(c.Fields[i].Inner)
+		}
+	}
+	return c
+}
+
+func lowerFieldKeys(n *Node) *Node { return recase(n, 1) }
